@@ -13,6 +13,17 @@ push = (" This time a pure refactor is NOT enough: change OBSERVABLE behaviour i
         "parser resumptions, clock readings, database transactions) happen, which of several allowed outcomes is chosen. Think of a "
         "maintainer who legitimately decides to do it differently. State precisely in meta.json why each difference is permitted by the "
         "statement.") if suffix.endswith("2") else ""
+if suffix.endswith("3"):
+    push = (" This time a pure refactor is NOT enough, and the obvious freedoms (log text, error messages, helper names) are not "
+            "enough either. Look for the places where the present implementation makes a CHOICE the statement does not force, and "
+            "choose differently: what public methods RETURN where the statement is silent (None vs bool vs the object vs a count); "
+            "whether a non-effect is signalled by False, None, or an exception (where the statement allows either); the TYPE of "
+            "containers and items exposed as attributes (list vs tuple vs deque, bytes vs bytearray vs memoryview, dict vs ordered "
+            "mapping); the internal REPRESENTATION of pending work (buffers, queues, markers, flags) including renaming or "
+            "restructuring attributes the statement never names; the ORDER among independent items (headers, keys, siblings that "
+            "the statement does not order); WHEN intermediate state becomes visible (before or after a callback, at the line or at "
+            "the end of a block); eager versus lazy work; one call doing more or less per invocation. Keep everything the "
+            "statement does say exactly true. State precisely in meta.json why each difference is permitted.")
 print(f"""You are working in a scratch git worktree of the Python library ioflo/hio at {d} (library source under {d}/src/hio, its tests under {d}/tests). Work ONLY inside {d}. Do not read, touch or depend on /repo, /verif or any other checkout.
 
 Environment facts:
